@@ -20,3 +20,9 @@ VARIANTS = [
     V("maximum", "        ts_next = jnp.max(jnp.array([ts_end, ts_prev + 1 / rate]))", "        ts_next = jnp.maximum(ts_prev + 1 / rate, ts_end)", expect="silent"),
     V("where-form", "is_larger = ts_start[_seq_mod] > ts_recv if skip else ts_start[_seq_mod] >= ts_recv", "is_larger = jnp.logical_or(ts_start[_seq_mod] > ts_recv, jnp.logical_and(not skip, ts_start[_seq_mod] == ts_recv))", expect="silent"),
 ]
+_E0 = "        edges = {(n1, n2): e for (n1, n2), e in _graphs.edges.items()}\n"
+_EG = "            if (output_name, input_name) in edges:\n                continue  # Skip if edge already exists\n"
+VARIANTS += [
+    V("edges-only-configured", _E0 + "        for ((output_name, input_name), c), _rng in zip(connections.items(), rngs_comm):", "        edges = dict()\n        for ((output_name, input_name), c), _rng in zip(connections.items(), rngs_comm):\n            if (output_name, input_name) in _graphs.edges:\n                edges[(output_name, input_name)] = _graphs.edges[(output_name, input_name)]", rule="C12.augment"),
+    V("edges-dict-copy", _E0, "        edges = dict(_graphs.edges)\n", expect="silent"),
+]
